@@ -3,7 +3,7 @@ import copy
 
 import oracles
 import slices
-from framework import PropertyCheck
+from framework import PropertyCheck, Scenario
 
 
 class Check(PropertyCheck):
@@ -42,6 +42,9 @@ class Check(PropertyCheck):
             if _i % 15 == 6:
                 yield slices.stale_ready_scenario(rng)
                 continue
+            if _i % 15 == 11:
+                yield Scenario(["new", f"mark raiser {rng.randint(0, 10**6)}"], {"family": "raiser", "accepted": 3, "style": "raiser"})
+                continue
             # every other scenario continues with a second episode after reset(): the clauses hold there as well
             yield slices.dispatch_scenario(rng, observers=True, peeks=True, with_invalid=True, max_jobs=4 if tier == "quick" else 5,
                                            max_ops=4 if tier == "quick" else 6, replay=rng.random() < 0.5,
@@ -49,6 +52,8 @@ class Check(PropertyCheck):
 
     def oracle(self, impl, scenario, index, line, out, ctx):
         res = []
+        if line.startswith("mark raiser"):
+            return oracles.raiser_episode(int(line.split()[2]))["C01"]
         if line.startswith("inst"):
             ctx["accepted"] = 0
         if line.startswith("reset"):
